@@ -205,6 +205,8 @@ pub struct Facts {
     pub partial_delimiter_abandoned: bool,
     /// ... and the re-scan found that a suffix of the abandoned tokens starts the delimiter again
     pub partial_delimiter_restarted: bool,
+    /// ... and that re-started match is at least two tokens long (a border of length >= 2 of the delimiter)
+    pub partial_delimiter_restarted_with_2: bool,
     /// §393: a blank space was skipped before an undelimited parameter
     pub spaces_skipped: bool,
     /// §400: a delimited parameter received m >= 2 units of which at least 2 are groups
@@ -283,6 +285,9 @@ pub fn macro_call(def: &MacroDef, input: &[Tok], long: bool) -> Result<Call, Cal
                                 }
                                 r = v + 1;
                                 facts.partial_delimiter_restarted = true;
+                                if r - s0 >= 2 {
+                                    facts.partial_delimiter_restarted_with_2 = true;
+                                }
                                 continue 'cont;
                             }
                             if params[u] != params[v] {
